@@ -62,6 +62,8 @@ Reasons(r) ==
                   THEN {<<"rejected-candidate-left-bindings", s>>} ELSE {})
             \* the pattern written as a rule's pattern object {context, selector, strictness} is the same pattern
             \cup (IF ~o.panic /\ o.yaml # -1 /\ (o.yaml = 1) # o.ok THEN {<<"rule-pattern-object-differs-from-the-pattern", s>>} ELSE {})
+            \* ... and so is the pattern built by the infallible constructor, whatever that constructor built before
+            \cup (IF ~o.panic /\ o.vianew # -1 /\ (o.vianew = 1) # o.ok THEN {<<"pattern-new-differs-from-try-new", s>>} ELSE {})
           : i \in 1..5 }
     \* the kept text of a cut pattern is copied from the code: when the parsed pattern has the structure of the code but
     \* a kept leaf reads differently, the pattern text was altered on its way to the matcher
